@@ -286,7 +286,99 @@ def run(ctx, hook_cls=C02Hook, prop='C02', drv='drv_c02'):
             ctx.case({'h': hi, 's': s}, nontrivial=bool(s['calls']),
                      sample={'script': s, 'outcome': info['outcome']} if (hi == 0 and len(ctx.samples) < 5 and s['calls']) else None)
         compare_model(ctx, w, history, drv)
+    if prop == 'C02':
+        writer_exclusion_scenario(ctx)
     ctx.traces = ctx.evaluations
+
+
+TX_OPENERS = {'metric': 'metric_state_transaction', 'alert': 'alert_state_transaction', 'component': 'component_state_transaction',
+              'context': 'context_state_transaction', 'descriptor': 'descriptor_transaction'}
+
+
+def writer_exclusion_scenario(ctx, pairs=None):
+    """The model's histories are sequences of whole transactions. That is what `ProviderMdib._transaction_manager` (transaction
+    lock + mdib lock around the body AND the commit) is there to guarantee; this scenario checks it on the real code with a
+    forced schedule: thread A is held inside an open transaction (after it got its copy), thread B then tries to open a
+    second transaction of any kind. B must not get into its body before A has committed, and what B is handed must be the
+    copy of what A committed (version = A's + 1); afterwards MdibVersion and the state version went up by exactly two."""
+    import threading
+    failures_before = len(ctx.failures)
+    p = lb.Provider(mdib_path=MDIBS[0], start=False, role_providers=False)
+    w = tx.World(p, ctx.subrng('excl'))
+    w.mdib_path = MDIBS[0]
+    m = p.mdib
+    try:
+        metrics = w.states_of_kind('metric')
+        if not metrics:
+            ctx.count('exclusion-scenario-skipped')
+            return
+        h = metrics[0]
+        for kind_a, kind_b in (pairs or [('metric', 'metric'), ('metric', 'descriptor'), ('descriptor', 'metric'), ('context', 'metric'),
+                                         ('alert', 'metric'), ('metric', 'component')]):
+            case = {'exclusion_scenario': [kind_a, kind_b], 'handle': h}
+            v0 = m.mdib_version
+            sv0 = m.states.descriptor_handle.get_one(h).StateVersion
+            a_in, a_go, b_in = threading.Event(), threading.Event(), threading.Event()
+            seen = {}
+            errors = []
+
+            def body(mgr, kind, who):
+                if kind in ('metric', 'descriptor'):
+                    if kind == 'descriptor':
+                        mgr.get_descriptor(h)
+                    st = mgr.get_state(h)
+                    seen[who] = st.StateVersion
+                    w.mutate_state(st, 11 if who == 'a' else 23)
+
+            def thread_a():
+                try:
+                    with getattr(m, TX_OPENERS[kind_a])() as mgr:
+                        body(mgr, kind_a, 'a')
+                        a_in.set()
+                        a_go.wait(10)
+                except Exception as ex:  # noqa: BLE001
+                    errors.append(repr(ex))
+                    a_in.set()
+
+            def thread_b():
+                try:
+                    with getattr(m, TX_OPENERS[kind_b])() as mgr:
+                        seen['b_entered_at'] = m.mdib_version
+                        b_in.set()
+                        body(mgr, kind_b, 'b')
+                except Exception as ex:  # noqa: BLE001
+                    errors.append(repr(ex))
+                    b_in.set()
+            ta, tb = threading.Thread(target=thread_a, daemon=True), threading.Thread(target=thread_b, daemon=True)
+            ta.start()
+            a_in.wait(10)
+            tb.start()
+            early = b_in.wait(0.25)
+            a_go.set()
+            ta.join(10)
+            tb.join(10)
+            n_commits = (1 if kind_a in ('metric', 'descriptor') else 0) + (1 if kind_b in ('metric', 'descriptor') else 0)
+            sv1 = m.states.descriptor_handle.get_one(h).StateVersion
+            if errors:
+                ctx.fail('exclusion-scenario-raised', str(errors), case)
+            if early:
+                ctx.fail('second-writer-entered-open-transaction',
+                         f'a {kind_b} transaction got into its body while a {kind_a} transaction of another thread was still open', case)
+            if 'b_entered_at' in seen and kind_a in ('metric', 'descriptor') and seen['b_entered_at'] != v0 + 1:
+                ctx.fail('second-writer-entered-open-transaction',
+                         f'second writer started at MdibVersion {seen["b_entered_at"]}, the first one committed {v0 + 1}', case)
+            if m.mdib_version != v0 + n_commits:
+                ctx.fail('mdib-version-step-under-two-writers', f'{v0} -> {m.mdib_version} after {n_commits} committed transactions', case)
+            if sv1 != sv0 + n_commits:
+                ctx.fail('state-version-step-under-two-writers',
+                         f'StateVersion of {h}: {sv0} -> {sv1} after {n_commits} transactions that changed it (handed out: {seen})', case)
+            if kind_a in ('metric', 'descriptor') and kind_b in ('metric', 'descriptor') and seen.get('b') != sv0 + 2:
+                ctx.fail('second-writer-got-stale-copy', f'handed out StateVersion {seen.get("b")}, first writer committed {sv0 + 1}', case)
+            ctx.case(case, nontrivial=True)
+            ctx.count('exclusion-scenarios')
+    finally:
+        w.close()
+    return len(ctx.failures) > failures_before
 
 
 def search(ctx, hook_cls=C02Hook):
@@ -303,10 +395,12 @@ def search(ctx, hook_cls=C02Hook):
 def replay(ctx, obj):
     lb.quiet()
     case = obj['case']
-
-    class Quiet(C02Hook):
-        pass
     ctx2 = core.Ctx('C02', 'quick', 0)
+    if 'exclusion_scenario' in case:
+        writer_exclusion_scenario(ctx2, [tuple(case['exclusion_scenario'])])
+        for f in ctx2.failures:
+            print('  ', f['signature'], ':', f['detail'])
+        return any(f['signature'] == obj['signature'] for f in ctx2.failures)
     run_history(ctx2, case.get('mdib', MDIBS[0]), ctx2.subrng('replay'), 0, [C02Hook(ctx2)], scripts=case['history'])
     for f in ctx2.failures:
         print('  ', f['signature'], ':', f['detail'])
